@@ -51,6 +51,26 @@ CLAIMED = {
               "pseudo-inverse relationally; the dsmm gradient against sparse^T @ grad). This found - and the repo now fixes - toeplitz_matmul with a "
               "vector rhs, sparse_repeat of a dimension > 1 and sparse_getitem destroying its input."),
         design="5/C20"),
+    "C04": dict(
+        engine="E2-exact-linalg-replay",
+        technique="TLA+ exact rational oracle (LORational: adjugate/determinant) + method-selection model (LOSelect) enumerated by TLC over class x configuration; replay of solve entry points with path-aware tolerances",
+        text=("spec/LORational.tla computes A^{-1}B = adj(A)B/det(A) exactly for integer PD instances (spec/LOGen.tla mode 1; TLC checks symmetry and "
+              "positive definiteness of every instance via leading minors). spec/MC_E2.tla enumerates 22 PD classes x batch x rhs kinds x 64 "
+              "configurations (max_cholesky_size {0, default}, fast solves, fast log_prob, cg_tolerance, preconditioner on/off, memory_efficient) "
+              "and labels each with the selection path of LOSelect (class shortcut / Cholesky / CG / CG+preconditioner); the harness requires every "
+              "path to be exercised. Replay: op.solve (vector, matrix, broadcast-batched, with left factor), torch.linalg.solve, "
+              "linear_operator.solve under the configuration, compared with the exact answer (200 eps kappa for direct paths, CG floor otherwise); "
+              "shape and dtype checked; the algorithm actually taken is read from the verbose_linalg log (coverage only)."),
+        design="5/C04"),
+    "C05": dict(
+        engine="E2-exact-linalg-replay",
+        technique="TLA+ exact determinants / rational quadratic forms (LORational) over class x configuration from TLC; replay with the stochastic path made exact by unit-vector probes",
+        text=("Same enumeration as C04. TLC supplies the exact integer determinant per batch member and the exact rational diag(R^T A^{-1} R); the "
+              "replay checks logdet, torch.logdet, inv_quad (reduced / per column / vector) and inv_quad_logdet (all flag combinations) for value, "
+              "documented output shape and finiteness. On the stochastic Lanczos-quadrature path torch.randn is wrapped so that the probes are the n "
+              "unit vectors (num_trace_samples = n): the estimator has zero variance and must equal ln det exactly (where the probes are drawn by a "
+              "preconditioner or per sub-block only shape / finiteness are decided)."),
+        design="5/C05"),
     "C12": dict(
         engine="E3-history-machines",
         technique="TLA+ model of per-object memoize caches over query/derivation/settings histories (key discipline from the live classes), exhaustive TLC histories replayed with per-step cache-validity checks",
@@ -164,6 +184,9 @@ def main():
             dict(name="E3-history-machines", path="spec/LOSettings.tla spec/LOCache.tla spec/LOPsdChol.tla harness/checks/",
                  serves_properties=sorted(k for k, v in CLAIMED.items() if v["engine"] == "E3-history-machines"),
                  kind_free_text="TLA+ state machines over event histories (ideal + implementation-shaped layers), exhaustive TLC exploration, histories replayed into / traces validated from the library"),
+            dict(name="E2-exact-linalg-replay", path="spec/LORational.tla spec/MC_E2.tla harness/e2.py",
+                 serves_properties=sorted(k for k, v in CLAIMED.items() if v["engine"] == "E2-exact-linalg-replay"),
+                 kind_free_text="exact rational linear algebra in TLA+ as oracle for solve / logdet / quadratic forms across configurations"),
             dict(name="E1-denote-replay", path="spec/LOTensor.tla spec/LOOperators.tla spec/LOGen.tla spec/MC_*.tla harness/",
                  serves_properties=sorted(k for k, v in CLAIMED.items() if v["engine"] == "E1-denote-replay"),
                  kind_free_text="TLA+ denotational specification; TLC enumerates behaviours with exact expected observations; Python replays them into the library"),
